@@ -37,49 +37,74 @@ def read_events(path):
     return evs
 
 
+CONTENT_FAULTS = ("truncated", "invalid", "missing_key", "wrong_type")
+
+
 def trace_of(d, psids, splits, resets_at_restart=True):
     """Jobs and model events from the event logs of one or more consecutive
-    mrp incarnations (psids share one pipestance directory when restarting).
-    Returns (jobs {id: (path, fork, kind)}, events [(kind, id)])."""
+    mrp incarnations on one pipestance directory.
+    Returns (jobs {id: (path, fork, kind)}, events [(kind, id)]).
+
+    * a stage's 'end' record is a completion only if the completion marker of
+      that attempt exists on disk (<events>.complete, written by the driver at
+      the end of the scenario): the monitor, not the stage, records completion;
+    * all incarnations are merged in time order (a job orphaned by a crash may
+      finish while the next mrp is already running);
+    * a job that was running or failed when an incarnation ended and is started
+      again later was reset by the restart: the reset is placed right before
+      that start (a done job can never be reset, Sched.enabled);
+    * bad content of a chunk's outs is noticed by mrp only when it assembles
+      the join of the same call; that call's join events in the same
+      incarnation are left out so that nothing outside the call is blamed."""
     jobs, events = {}, []
-    state = {}
+    merged = []
     for inc, psid in enumerate(psids):
         evs = read_events(os.path.join(d, psid + ".events"))
-        if inc > 0 and resets_at_restart and evs is not None:
-            # a new mrp incarnation: jobs that were running or failed when the
-            # previous one ended are reset (killed / orphan-checked) before they
-            # may start again; done jobs must never be reset
-            for jid, st in sorted(state.items()):
-                if st in ("running", "failed"):
-                    events.append(("EReset", jid))
-                    state[jid] = "idle"
-        faulted = set()
+        cpath = os.path.join(d, psid + ".events.complete")
+        recorded = set(open(cpath).read().split()) if os.path.exists(cpath) else None
+        skip_join = set()
         for t, n, kind, jid, rest in evs:
-            if kind == "end" and jid in faulted:
-                # the job wrote bad outputs and exited normally: mrp records the
-                # failure, the process's own 'end' record is not a completion
+            if kind == "fault" and len(rest) >= 3 and rest[2] in CONTENT_FAULTS \
+                    and rest[1] == "main" and rest[0] in splits:
+                path, fork, _, _ = parse_id(jid)
+                skip_join.add((path, fork))
+        for t, n, kind, jid, rest in evs:
+            merged.append((t, inc, n, kind, jid, rest, recorded, skip_join))
+    merged.sort(key=lambda e: (e[0], e[1], e[2]))
+    state, epoch_started = {}, {}
+    faulted = set()           # (inc, jid): this attempt wrote bad outputs / failed
+    for t, inc, n, kind, jid, rest, recorded, skip_join in merged:
+        path, fork, chunk, phase = parse_id(jid)
+        if phase == "join" and (path, fork) in skip_join:
+            continue
+        if kind == "start":
+            stage = rest[0]
+            if phase == "split":
+                k = "KSplit"
+            elif phase == "join":
+                k = "KJoin"
+            elif stage in splits:
+                k = "KChunk"
+            else:
+                k = "KMain"
+            jobs[jid] = (path, fork, k)
+            if resets_at_restart and state.get(jid) in ("running", "failed") and epoch_started.get(jid, inc) < inc:
+                events.append(("EReset", jid))
+            events.append(("EStart", jid))
+            state[jid] = "running"
+            epoch_started[jid] = inc
+            faulted.discard((inc, jid))      # a new attempt (in-process retry)
+        elif kind == "end":
+            if (inc, jid) in faulted:
                 continue
-            if kind == "start":
-                path, fork, chunk, phase = parse_id(jid)
-                stage = rest[0]
-                if phase == "split":
-                    k = "KSplit"
-                elif phase == "join":
-                    k = "KJoin"
-                elif stage in splits:
-                    k = "KChunk"
-                else:
-                    k = "KMain"
-                jobs[jid] = (path, fork, k)
-                events.append(("EStart", jid))
-                state[jid] = "running"
-            elif kind == "end":
-                events.append(("EDone", jid))
-                state[jid] = "done"
-            elif kind == "fault":
-                events.append(("EFail", jid))
-                state[jid] = "failed"
-                faulted.add(jid)
+            if recorded is not None and jid not in recorded:
+                continue
+            events.append(("EDone", jid))
+            state[jid] = "done"
+        elif kind == "fault":
+            events.append(("EFail", jid))
+            state[jid] = "failed"
+            faulted.add((inc, jid))
     return jobs, events
 
 
